@@ -1284,6 +1284,31 @@ pub fn run(ctx: &mut Ctx) -> &'static str {
         }
     }
 
+    // ---- 0-D interpolator: every strategy, with and without a point
+    for sidx in 0..5 {
+        let Some(idx) = ctx.begin() else { continue };
+        let v = 0.5 + sidx as f64;
+        let it = Interpolator::Interp0D(v);
+        let pts: Vec<Vec<f64>> = vec![vec![], vec![0.0], vec![1.0, 2.0]];
+        let outs: Vec<Out> = pts.iter().map(|p| call(|| it.interpolate(p, &strat(sidx).0))).collect();
+        for (p, o) in pts.iter().zip(&outs) {
+            let want_ok = p.is_empty() && sidx == 0;
+            if want_ok != matches!(o, Out::Ok(x) if *x == v) || *o == Out::Panic {
+                ctx.fail(idx, "interp0/value", format!("0-D interpolator with strategy {} and point {:?} gave {:?}", strat(sidx).1, p, o));
+            }
+        }
+        ctx.emit(idx, format!("i0 {} {} {}", strat(sidx).1, fbits(v), pts_text(&pts)), outs.iter().map(|o| o.text()).collect::<Vec<_>>().join(" "));
+        ctx.count("i0");
+    }
+    // ---- find_nearest_index, exhaustively on small grids: every strictly increasing subset of {0..5},
+    // every target on the half-integer lattice from -1 to 6
+    for mask in 1u32..64 {
+        let g: Vec<f64> = (0..6).filter(|b| mask >> b & 1 == 1).map(|b| b as f64).collect();
+        for h in -2i32..=12 {
+            let Some(idx) = ctx.begin() else { continue };
+            case_fni(ctx, idx, g.clone(), h as f64 / 2.0);
+        }
+    }
     // ---- find_nearest_index
     for k in 0..ctx.n(600, 20000) {
         let Some(idx) = ctx.begin() else { continue };
